@@ -162,6 +162,21 @@ theorem crop_rows (v : KView) (lo hi : Rat) (hlo : 0 ≤ lo) (hhi : 0 ≤ hi) (h
   · rw [if_neg h]
     exact ⟨rfl, fun hnil => h (by rw [show (List.drop (lo / v.px).floor.toNat (List.take (hi / v.px).ceil.toNat v.img)) = [] from hnil]; rfl), rfl, rfl⟩
 
+/-- The crop as executed in floating point (`cropF`, what the driver runs for pixel sizes that are not binary
+    fractions) is the rational crop of `crop_rows` whenever the two index computations agree — i.e. whenever rounding
+    the quotient does not carry it across an integer.  (Where it does, e.g. `1.0 / 0.1`, the code's answer is the
+    rounded one; the correspondence check pins that, the oracle does not take sides.) -/
+theorem cropF_refines_crop (v : KView) (lo hi : Float) (loR hiR : Rat)
+    (hs : (lo < 0 || hi < 0) = decide (loR < 0 ∨ hiR < 0))
+    (hl : f2i (Float.floor (lo / v.pxF)) = (loR / v.px).floor)
+    (hu : f2i (Float.ceil (hi / v.pxF)) = (hiR / v.px).ceil) :
+    v.cropF lo hi = v.crop loR hiR := by
+  unfold KView.cropF KView.crop
+  rw [hs, hl, hu]
+  by_cases h : loR < 0 ∨ hiR < 0
+  · simp [h]
+  · simp [h]
+
 theorem crop_negative (v : KView) (lo hi : Rat) (h : lo < 0 ∨ hi < 0) :
     (match v.crop lo hi with | .err .valueError => True | _ => False) := by
   unfold KView.crop; simp [h]
